@@ -307,6 +307,9 @@ class PriceLoop(FunctionContract):
             all_zero = And(*[compare(x, 0, "==") for x in Nl])
             conds.append(True if len(procs) == n else (And(len(procs) >= 1, all_zero) if len(procs) < n else False))
             conds.append(all(lv <= g["Lmax"] for lv in g["levels_run"]))
+            # some level asks for samples at every loop head: the loop is never left through its own condition (the "initial
+            # number of paths too low" exit, below the maximum level and without any decision of the stopping test)
+            conds.append(Or(*[compare(dNl[l], 0, ">") for l in range(n)]))
             return And(*conds)
         self.loops = {1: LoopSpec(inv, havoc={"L": h_L, "Nl": h_arr("N"), "dNl": h_arr("dN"), "sum_cost": h_arr("cost", real=True), "Ns": h_arr("Ns"),
                                                "ml": h_arr("ml", real=True), "vl": h_arr("vl", real=True), "cl": h_arr("cl", real=True),
@@ -319,6 +322,8 @@ class PriceLoop(FunctionContract):
         CP = "rpylib.process.coupling.couplingmarkovchain:CouplingMarkovChain"
         interp.hooks[EN + "Engine.initialisation"] = lambda it, f, b: None
         interp.hooks["rpylib.montecarlo.configuration:Configuration.initialisation_seed"] = lambda it, f, b: None
+        interp.opaque_hooks = dict(getattr(interp, "opaque_hooks", None) or {})
+        interp.opaque_hooks["logging.warning"] = lambda it, *a, **k: G().setdefault("warnings", []).append(a[0] if a else "")
         interp.hooks[PA + "MCPath.update"] = lambda it, f, b: None
         interp.hooks["rpylib.process.process:Process.df"] = lambda it, f, b: 1.0
         for fq in (CP + ".next_level", CP + ".reset_one_simulation_cost", CP + ".pre_computation"):
@@ -413,7 +418,8 @@ class PriceLoop(FunctionContract):
     def ensures(self, result, **a):
         from pyvc import ctx
         g = ctx.PATH.ghost
-        out = {"returns-the-statistics": result is g["stats"]}
+        out = {"returns-the-statistics": result is g["stats"],
+               "does-not-end-through-the-no-more-samples-exit": not any("too low" in str(m) for m in g.get("warnings", []))}
         rep = g.get("reported")
         if rep is None:
             out["results-reported-before-returning"] = False
@@ -436,8 +442,9 @@ class PriceLoop(FunctionContract):
         if ns is not None and acc is not None and len(ns) == n:
             need = And(*[compare(100 * (ns[l] - rep[l]), rep[l], "<=") for l in range(n)])
             some_need = Or(*[compare(ns[l], rep[l], ">") for l in range(n)])
-            # the "initial number of paths too low" exit (no level asks for a sample) is C06's known finding: not this clause
-            out["returned-with-the-stopping-test-accepted-or-at-the-maximum-level"] = Or(acc, n - 1 == g["Lmax"], Not(some_need)) if is_sym(acc) else (bool(acc) or n - 1 == g["Lmax"])
+            # (the "initial number of paths too low" exit -- no level asks for a sample -- used to be carved out of this clause
+            # as C06's known finding; since the repair a level just added always gets samples and the clause is stated whole)
+            out["returned-with-the-stopping-test-accepted-or-at-the-maximum-level"] = Or(acc, n - 1 == g["Lmax"]) if is_sym(acc) else (bool(acc) or n - 1 == g["Lmax"])
             out["every-level-has-its-optimal-size-within-the-1-percent-rule"] = need
             out["no-placeholder-row-at-return"] = Implies(Or(acc, n - 1 == g["Lmax"]) if is_sym(acc) else True, And(*[compare(g["cap"][l], rep[l], "==") for l in range(n)]))
         return out
@@ -446,8 +453,6 @@ class PriceLoop(FunctionContract):
         # native oracles for the adaptive loop: the scripted-history batteries of C05 (sample provenance) and C06 (exits, 1 % rule)
         from contracts import c06
         v = list(ScriptedEngine().run("quick", 0)["violations"]) + [x for x in c06.Trajectories().run("quick", 0)["violations"]]
-        known = ("returns-only-on-acceptance-or-at-the-maximum-level[added-level-needs-no-sample]",)       # C06's recorded finding
-        v = [x for x in v if not any(k in x["obligation"] for k in known)]
         return (bool(v), {"scripted_history_violations": [{"obligation": x["obligation"], "witness": x.get("witness")} for x in v][:3]})
 
 
